@@ -4,7 +4,7 @@
    For one configuration and a list of (file, implementation outcome) the harness gets back, per file,
    [impl = spec ; model ideal = spec ; impl = model q for each candidate q]. *)
 From Coq Require Import ZArith.
-From TL Require Import Lib.Base Lib.GenTypes Model.PlacementTypes Gen.PlacementGen Model.Placement.
+From TL Require Import Lib.Base Lib.GenTypes Model.PlacementTypes Gen.PlacementGen Model.Placement Model.PlacementSource.
 
 Definition tbl_matches (t : list (string * string * bool)) (pat s : string) : bool :=
   match find (fun e => String.eqb pat (fst (fst e)) && String.eqb s (snd (fst e))) t with
@@ -83,4 +83,23 @@ Definition judge (q : pquirks) (pats : list string) (vrow : list bool)
          agrees_spec i s
          :: soutcome_eqb (forget (run valid matches ideal c f)) s
          :: map (fun cq => agrees_model i (run valid matches cq c f)) (candidates q))
+      runs.
+
+(* ---------------------------------------------------------------- cases with a rule-set source (config file + --rules) *)
+Definition swith_flag (i : nat) (q : squirks) : squirks :=
+  Build_squirks (if i =? 0 then false else q_rules_toplevel_ignored q) (if i =? 1 then false else q_rules_do_not_override_file q).
+
+(* candidates: the claimed vectors, each of the seven flags switched off alone, the ideal *)
+Definition candidates_src (q : pquirks) (sq : squirks) : list (pquirks * squirks) :=
+  (q, sq) :: map (fun i => (with_flag i q, sq)) [0;1;2;3;4] ++ map (fun i => (q, swith_flag i sq)) [0;1] ++ [(ideal, sideal)].
+
+Definition judge_src (q : pquirks) (sq : squirks) (pats : list string) (vrow : list bool)
+           (s : source) (runs : list (fileq * list bool * list bool * ioutcome)) : list (list bool) :=
+  let valid := fun pat => lookup pat pats vrow true in
+  map (fun fi => let '(f, r1, r2, i) := fi in
+         let matches := row_matches pats (relpath f) r1 (f_rest f) r2 in
+         let sp := spec_src valid matches s f in
+         agrees_spec i sp
+         :: soutcome_eqb (forget (run_src valid matches ideal sideal s f)) sp
+         :: map (fun cq => agrees_model i (run_src valid matches (fst cq) (snd cq) s f)) (candidates_src q sq))
       runs.
